@@ -60,25 +60,36 @@ Definition Good' (d0 : bytes) (st : fstate) : Prop :=
 Definition GSafe (d0 : bytes) (st : fstate) : Prop :=
   recover_g walrev_fixed st = Some {| data := d0; wal := [] |}.
 
+(* what a crash leaves: the log of a Good' state followed by a torn record *)
+Definition Recoverable (d0 : bytes) (st : fstate) : Prop :=
+  exists rs t, wal st = encs rs ++ t /\ incomplete t /\ Forall ok_rec rs /\
+               replay_nf rs (data st) = d0 /\ gok_nf rs (data st).
+
 Lemma good'_good d0 st : Good' d0 st -> Good d0 st.
 Proof. intros (rs & Hw & Hok & Hr & _). exists rs. auto. Qed.
 
 Lemma good'_committed d0 : Good' d0 {| data := d0; wal := [] |}.
 Proof. exists []. cbn [data wal]. repeat split; constructor. Qed.
 
-Lemma gsafe_tail d0 st rs t :
+Lemma rec_tail d0 st rs t :
   wal st = encs rs ++ t -> incomplete t -> Forall ok_rec rs ->
-  replay_nf rs (data st) = d0 -> gok_nf rs (data st) -> GSafe d0 st.
+  replay_nf rs (data st) = d0 -> gok_nf rs (data st) -> Recoverable d0 st.
+Proof. intros. exists rs, t. auto. Qed.
+
+Lemma rec_gsafe d0 st : Recoverable d0 st -> GSafe d0 st.
 Proof.
-  intros Hw Ht Hok Hr Hg. unfold GSafe, recover_g, replay_g. cbn [w_newest_first walrev_fixed].
+  intros (rs & t & Hw & Ht & Hok & Hr & Hg). unfold GSafe, recover_g, replay_g. cbn [w_newest_first walrev_fixed].
   rewrite Hw, records_encs by assumption. rewrite apply_all_g_ok by exact Hg.
   unfold replay_nf in Hr. now rewrite Hr.
 Qed.
 
-Lemma good'_gsafe d0 st : Good' d0 st -> GSafe d0 st.
+Lemma rec_safe d0 st : Recoverable d0 st -> Safe d0 st.
+Proof. intros (rs & t & Hw & Ht & Hok & Hr & Hg). now apply (safe_tail d0 st rs t). Qed.
+
+Lemma good'_rec d0 st : Good' d0 st -> Recoverable d0 st.
 Proof.
   intros (rs & Hw & Hok & Hr & Hg).
-  apply (gsafe_tail d0 st rs []); [now rewrite app_nil_r|apply incomplete_nil|exact Hok|exact Hr|exact Hg].
+  apply (rec_tail d0 st rs []); [now rewrite app_nil_r|apply incomplete_nil|exact Hok|exact Hr|exact Hg].
 Qed.
 
 (* a record that describes the current content and lies inside it *)
@@ -97,18 +108,18 @@ Proof.
   - apply gok_nf_app. rewrite gok_nf_one, replay_nf_one, Hr2. split; assumption.
 Qed.
 
-Lemma log_gsafe d0 st r k j :
-  Good' d0 st -> fits (data st) r -> k < 3 -> GSafe d0 (crash st (log_calls (fst r) (snd r)) k j).
+Lemma log_rec d0 st r k j :
+  Good' d0 st -> fits (data st) r -> k < 3 -> Recoverable d0 (crash st (log_calls (fst r) (snd r)) k j).
 Proof.
   intros (rs & Hw & Hok & Hr & Hg) Hfit Hk.
   destruct (log_crash st (fst r) (snd r) k j Hk) as [m ->].
   destruct (Nat.ltb_spec m (length (enc_rec (fst r) (snd r)))) as [Hm|Hm].
-  - apply (gsafe_tail d0 _ rs (firstn m (enc_rec (fst r) (snd r)))); cbn [data wal];
+  - apply (rec_tail d0 _ rs (firstn m (enc_rec (fst r) (snd r)))); cbn [data wal];
       [now rewrite Hw| |exact Hok|exact Hr|exact Hg].
     apply prefix_incomplete; [|exact Hm]. destruct r; apply Hfit.
   - rewrite firstn_all2 by exact Hm.
     destruct (good'_snoc d0 (data st) (wal st) rs r Hw Hok Hr Hg Hfit) as (A & B & C & D).
-    apply (gsafe_tail d0 _ (rs ++ [r]) []); cbn [data wal];
+    apply (rec_tail d0 _ (rs ++ [r]) []); cbn [data wal];
       [now rewrite app_nil_r|apply incomplete_nil|exact B|exact C|exact D].
 Qed.
 
@@ -130,7 +141,7 @@ Proof. reflexivity. Qed.
 
 Lemma logs_steps d0 extra : forall st,
   Good' d0 st -> Forall (fits (data st)) extra ->
-  (forall k j, k < length (logs extra) -> GSafe d0 (crash st (logs extra) k j)) /\
+  (forall k j, k < length (logs extra) -> Recoverable d0 (crash st (logs extra) k j)) /\
   Good' d0 (run_calls st (logs extra)) /\
   data (run_calls st (logs extra)) = data st /\
   wal (run_calls st (logs extra)) = wal st ++ encs extra.
@@ -145,7 +156,7 @@ Proof.
     destruct (IH st1 G1) as (S2 & G2 & D2 & W2); [now rewrite D1|].
     rewrite logs_cons. repeat split.
     + intros k j Hk. rewrite crash_app. change (length (log_calls (fst r) (snd r))) with 3.
-      destruct (Nat.ltb_spec k 3) as [K|K]; [now apply log_gsafe|].
+      destruct (Nat.ltb_spec k 3) as [K|K]; [now apply log_rec|].
       fold st1. apply S2. rewrite app_length in Hk. change (length (log_calls (fst r) (snd r))) with 3 in Hk. lia.
     + rewrite run_calls_app. exact G2.
     + rewrite run_calls_app. fold st1. now rewrite D2.
@@ -172,7 +183,7 @@ Lemma logged_op d0 st extra c :
   (forall d', (d' = after_call (data st) c \/ exists j, d' = after_torn (data st) c j) ->
               replay_nf extra d' = data st /\ gok_nf extra d') ->
   let cs := logs extra ++ [c] in
-  (forall k j, GSafe d0 (crash st cs k j)) /\
+  (forall k j, Recoverable d0 (crash st cs k j)) /\
   Good' d0 (run_calls st cs) /\ data (run_calls st cs) = after_call (data st) c.
 Proof.
   intros HG Hf Hc Hundo cs. subst cs.
@@ -195,8 +206,8 @@ Proof.
     destruct (Nat.ltb_spec k (length (logs extra))) as [K|K]; [now apply S1|].
     fold stb. destruct (k - length (logs extra)) as [|k2].
     + unfold crash. cbn [firstn nth_error run_calls fold_left]. rewrite apply_torn_data by exact Hc.
-      rewrite D1. apply good'_gsafe, After. right. now exists j.
-    + rewrite crash_all by (cbn; lia). rewrite Full. apply good'_gsafe, After. now left.
+      rewrite D1. apply good'_rec, After. right. now exists j.
+    + rewrite crash_all by (cbn; lia). rewrite Full. apply good'_rec, After. now left.
   - rewrite run_calls_app. fold stb. rewrite Full. apply After. now left.
   - rewrite run_calls_app. fold stb. now rewrite Full.
 Qed.
@@ -207,14 +218,14 @@ Lemma op_write_g d0 st pos bs :
   Good' d0 st -> pos <= length (data st) -> (N.of_nat (length (data st)) < bound)%N ->
   (N.of_nat (length (write_at (data st) pos bs)) < bound)%N ->
   let cs := calls_of walrev_fixed (data st) (OWrite pos bs) in
-  (forall k j, GSafe d0 (crash st cs k j)) /\
+  (forall k j, Recoverable d0 (crash st cs k j)) /\
   Good' d0 (run_calls st cs) /\ data (run_calls st cs) = write_at (data st) pos bs.
 Proof.
   intros HG Hpos Hb Hb2 cs. subst cs. set (d := data st) in *. set (len := length d) in *.
   destruct bs as [|b0 bs'] eqn:Ebs.
   { (* empty write: no calls *)
     unfold calls_of. cbn [w_skip_empty walrev_fixed]. repeat split.
-    - intros k j. rewrite crash_all by (cbn; lia). cbn. now apply good'_gsafe.
+    - intros k j. rewrite crash_all by (cbn; lia). cbn. now apply good'_rec.
     - exact HG.
     - cbn. fold d. now rewrite write_at_nil. }
   rewrite <- Ebs in *. assert (Hne : 0 < length bs) by (rewrite Ebs; cbn; lia).
@@ -281,7 +292,7 @@ Qed.
 Lemma op_resize_g d0 st n :
   Good' d0 st -> (N.of_nat (length (data st)) < bound)%N -> (N.of_nat n < bound)%N ->
   let cs := calls_of walrev_fixed (data st) (OResize n) in
-  (forall k j, GSafe d0 (crash st cs k j)) /\
+  (forall k j, Recoverable d0 (crash st cs k j)) /\
   Good' d0 (run_calls st cs) /\ data (run_calls st cs) = set_len (data st) n.
 Proof.
   intros HG Hb Hn cs. subst cs. set (d := data st) in *. set (len := length d) in *.
@@ -316,23 +327,23 @@ Qed.
 Lemma op_flush_g d0 st :
   Good' d0 st ->
   let cs := calls_of walrev_fixed (data st) OFlush in
-  (forall j, GSafe d0 (crash st cs 0 j)) /\
+  (forall j, Recoverable d0 (crash st cs 0 j)) /\
   Good' (data st) (run_calls st cs) /\ data (run_calls st cs) = data st.
 Proof.
   intros HG cs. subst cs. cbn [calls_of]. split; [|split].
-  - intros j. unfold crash. cbn. now apply good'_gsafe.
+  - intros j. unfold crash. cbn. now apply good'_rec.
   - cbn [run_calls fold_left apply_sys]. exists []. cbn [data wal]. repeat split; constructor.
   - reflexivity.
 Qed.
 
 (* ---------- all operation lists, all cuts ---------- *)
 
-Theorem recover_g_restores_state : forall ops st d0 k j,
+Theorem crash_recoverable : forall ops st d0 k j,
   Good' d0 st -> wp (data st) ops ->
-  GSafe (expect d0 st ops k) (crash st (trace walrev_fixed st ops) k j).
+  Recoverable (expect d0 st ops k) (crash st (trace walrev_fixed st ops) k j).
 Proof.
   induction ops as [|o r IH]; intros st d0 k j HG Hwp.
-  - cbn [trace expect]. rewrite crash_all by (cbn; lia). cbn. now apply good'_gsafe.
+  - cbn [trace expect]. rewrite crash_all by (cbn; lia). cbn. now apply good'_rec.
   - cbn [trace expect]. rewrite crash_app.
     set (cs := calls_of walrev_fixed (data st) o).
     destruct (Nat.ltb_spec k (length cs)) as [K|K].
@@ -356,6 +367,11 @@ Proof.
         destruct (op_flush_g d0 st HG) as (_ & G' & D').
         apply IH; [exact G'|]. fold cs in D'. rewrite D'. exact Hnext.
 Qed.
+
+Theorem recover_g_restores_state : forall ops st d0 k j,
+  Good' d0 st -> wp (data st) ops ->
+  GSafe (expect d0 st ops k) (crash st (trace walrev_fixed st ops) k j).
+Proof. intros. now apply rec_gsafe, crash_recoverable. Qed.
 
 (* the guard never fires on a log the storage wrote: guarded = unguarded recovery *)
 Theorem recover_g_restores : forall ops st d0 k j,
